@@ -28,7 +28,9 @@
 (***************************************************************************)
 EXTENDS CompressedOps
 
-CONSTANTS U, N, Eps, EpsRec, NChunks, Sentinel
+CONSTANTS U, N, Eps, EpsRec, NChunks, Sentinel,
+          MinBuildLen,   \* the index is built on arrays of at least this length (1 in exhaustive runs; larger in simulation)
+          MaxStep        \* largest gap between consecutive keys (U in exhaustive runs)
 VARIABLES data, idx, pc, q, res
 vars == <<data, idx, pc, q, res>>
 BuildIndex(a, up) == IF EpsRec = 0 THEN BuildCompP(a, Eps, NChunks, Sentinel, up)
@@ -41,9 +43,9 @@ NoRes == [pos |-> 0, lo |-> 0, hi |-> 0, oob |-> FALSE]
 Init == /\ \E x \in 0..(U - 1) : data = <<x>>
         /\ idx = <<>> /\ pc = "grow" /\ q = 0 /\ res = NoRes
 Extend == /\ pc = "grow" /\ Len(data) < N
-          /\ \E x \in data[Len(data)]..(U - 1) : data' = Append(data, x)
+          /\ \E x \in data[Len(data)]..(IF data[Len(data)] + MaxStep < U - 1 THEN data[Len(data)] + MaxStep ELSE U - 1) : data' = Append(data, x)
           /\ UNCHANGED <<idx, pc, q, res>>
-BuildIt == /\ pc = "grow" /\ (\E up \in BOOLEAN : idx' = BuildIndex(data, up)) /\ pc' = "built" /\ UNCHANGED <<data, q, res>>
+BuildIt == /\ pc = "grow" /\ Len(data) >= MinBuildLen /\ (\E up \in BOOLEAN : idx' = BuildIndex(data, up)) /\ pc' = "built" /\ UNCHANGED <<data, q, res>>
 n == Len(data)
 SubEps(x, e) == IF x <= e THEN 0 ELSE x - e
 AddEps(x, e, size) == IF x + e + 2 >= size THEN size ELSE x + e + 2
